@@ -31,7 +31,17 @@ def main():
         })
     na = [{"property_id": k, "reason": v} for k, v in sorted(NA.items()) if k not in P.PROPS or not P.PROPS[k].get("claimed", True)]
     allp = ["C%02d" % i for i in range(1, 21)]
+    NOT_YET = {
+        "C05": "not claimed: the per-element conversion bodies (make_*_copy lambdas) are not under contract yet; the parts of C05 that reduce to C01/C14/C18 (index maps, allocation sizes incl. both Hilbert expressions) are verified there; nd_map coverage (C19) would remain an assumption",
+        "C06": "not claimed as a whole: the array backend's write_binary/read_binary and the header/footer primitives are under contract (cells run under C08/thorough C15), but the per-layer framing functions and the round-trip lemma are not built yet",
+        "C07": "not claimed: width portability of the array payload (both on-disk widths in one reader cell) is verified under C08; interpolator pass-through serialisers and the golden-grammar lemmas per layer are not built yet",
+        "C09": "not claimed: affine algebra (matrix/vector operator() rewriting, rule R17) not built yet",
+    }
     for pid in allp:
+        claimed = pid in P.PROPS and P.PROPS[pid].get("claimed", True)
+        if not claimed and pid not in NA:
+            na.append({"property_id": pid, "reason": NOT_YET.get(pid, "not built in this session; no claim is made")})
+    for pid in []:
         if pid not in P.PROPS and pid not in NA:
             na.append({"property_id": pid, "reason": "not built yet in this session (planned in DESIGN.md section 5); no claim is made"})
     m = {
